@@ -205,6 +205,20 @@ def _named_children(m: Any) -> list:
 
 
 def _move_ownership(cp: Any, pert: dict) -> bool:
+    if pert.get('how') == 'unclaim-item':
+        from vf.gen import schema as S2
+        found = []
+        for ms in OPS.index_models(cp).values():
+            for m in ms:
+                for p in S2.props_of(m):
+                    if p.kind == 'clist':
+                        wl = getattr(m, p.name)
+                        found += [(wl, c) for c in wl if isinstance(c, BlockComment)]
+        if not found:
+            return False
+        wl, c = found[pert.get('mi', 0) % len(found)]
+        wl.unclaim_interleaving_comments([c])
+        return True
     w = cp.raw_directives_with_comments
     items = list(w)
     cands = [i for i, d in enumerate(items) if getattr(d, 'raw_leading_comment', None) is not None]
@@ -228,7 +242,7 @@ def _move_ownership(cp: Any, pert: dict) -> bool:
 
 
 def _build(tier: str):
-    cfg = L.Cfg(max_dirs=4 if tier == 'quick' else 8, comments=0.4, blank=0.25)
+    cfg = L.Cfg(max_dirs=4 if tier == 'quick' else 8, comments=0.45, blank=0.3, dup_comments=0.5)
     fams = ['tokraw', 'tokraw', 'opt', 'opt', 'req', 'val', 'list', 'list', 'view']
 
     def build(rnd: Any) -> dict:
@@ -240,8 +254,8 @@ def _build(tier: str):
             root = common.parse_file(L.text_of(chunks), claim)
         except Exception:  # noqa: BLE001
             return case
-        if g.p(0.2):
-            case['pert'] = {'p': 'own', 'mi': g.n(0, 9), 'how': g.pick(['prev-trailing', 'standalone', 'unowned'])}
+        if g.p(0.3):
+            case['pert'] = {'p': 'own', 'mi': g.n(0, 9), 'how': g.pick(['prev-trailing', 'standalone', 'unowned', 'unclaim-item', 'unclaim-item'])}
         else:
             op = None
             for _ in range(5):
@@ -259,8 +273,24 @@ def _sweep():
         yield {'dirs': c['dirs'], 'claim': True, 'pert': {'p': 'op', 'op': c['ops'][0]}}
 
 
+IDENTICAL_COMMENT_DOCS = [
+    '; ----\n\n; ----\n', '; ----\n\n; ----\n\n; ----', '2000-01-01 open Assets:A\n\n; ----\n\n; ----\n',
+    '; ----\n\n; ----\n\n2000-01-01 open Assets:A\n', '; h\n\n2000-01-01 open Assets:A\n\n; ----\n\n2000-01-02 close Assets:A\n\n; ----\n\n; ----\n',
+    '2000-01-01 *\n  ; x\n\n2000-01-02 *\n  ; x\n', '2000-01-01 open Assets:A\n  ; x\n2000-01-02 open Assets:B\n  ; x\n',
+    '  ; x\n\n  ; x\n\n  ; x\n', '; a\n\n; b\n\n; a\n\n; a\n',
+]
+
+
+def _enum_identical_comments():
+    """Runs of standalone comments with identical text: releasing any single one changes the structure but not a single character."""
+    for text in IDENTICAL_COMMENT_DOCS:
+        for i in range(6):
+            for claim in (True,):
+                yield {'dirs': [[['X', text]]], 'claim': claim, 'pert': {'p': 'own', 'how': 'unclaim-item', 'mi': i}}
+
+
 def jobs(tier: str) -> list[Job]:
-    js = [Job('same-text-tokens', 'enum', lambda: iter([{'kind': 'tokens'}]), exhaustive=True),
+    js = [Job('identical-comments', 'enum', _enum_identical_comments, exhaustive=True), Job('same-text-tokens', 'enum', lambda: iter([{'kind': 'tokens'}]), exhaustive=True),
           Job('pairs', 'hyp', lambda: _build(tier), 3000 if tier == 'quick' else 80000)]
     if tier != 'quick':
         js.append(Job('list-sweep', 'enum', _sweep, exhaustive=True))
